@@ -2,6 +2,7 @@ import PV.Model.Eval
 import PV.Model.Ops
 import PV.Model.Traverse
 import PV.Driver.GAOps
+import PV.Driver.MemoOps
 import PV.Driver.UnifyOps
 import PV.Driver.RewriteOps
 import PV.Driver.PickleOps
@@ -196,6 +197,7 @@ def handlers : List (Sexp → Option Sexp) :=
    , handlePickle
    , handleRewrite
    , handleUnify
+   , handleMemo
    -- HANDLERS
   ]
 
